@@ -247,7 +247,9 @@ def r9(src, counts):
         i = cb
     out.append(src[i:])
     src = ''.join(out)
-    # private items -> pub (fn / struct / enum / const / mod at item level, not in trait impls)
+    # private top-level types -> pub (visibility only; Verus treats non-visible datatypes as opaque)
+    src, k = re.subn(r'(?m)^(struct|enum) ', r'pub \1 ', src)
+    counts['R9.pub_type'] += k
     return src
 
 
